@@ -38,6 +38,8 @@ CLAIMED = {
          "4 C09", "'returns exactly when decided' and the concurrency bound as real-time behaviour of ThreadPoolExecutor (S)"),
  "C17": ("Logger gate and extras; track_replay flip against a quantified spec over an arbitrary operations map; every operation method calls track_replay(id) exactly after a normal return; initial status for every pagination; boundary lemma with one known finding (region excluded, rest proved)",
          "4 C17", "the sequential-program induction from per-call contracts to whole programs (U)"),
+ "C19": ("Owicki-Gries at atomic-action granularity: each `with self._lock` block of the real OrderedLock methods preserves the ticket-queue invariant from ANY invariant state (hence under every interleaving of any number of threads); mutual exclusion + FIFO follow from the invariant at the point acquire returns; breaking on any exception class; counter returns k to the k-th holder",
+         "4 C19", "fairness of threading.Lock and termination of critical sections (liveness); atomicity assumption G"),
  "C20": ("every wire codec pair executed symbolically on fully symbolic well-typed objects; N(from(to(x))) == N(x) per field, dict and JSON routes, plus presence of every option in the wire form",
          "4 C20", "float rounding of millisecond conversion (A)"),
 }
